@@ -61,6 +61,12 @@ def run(R):
                                    [{"op": "process", "x": 1, "data": data[:70]}]
                         hs.append(h2)
                         R.count((variant, rounds, kl, s, "reposition-in-use"), trivial=False)
+                        # a copy taken mid-block continues exactly where the original stands
+                        h4 = dict(h, id=R.next_id())
+                        h4["ev"] = [{"op": "new"}, {"op": "process", "x": 1, "data": data[:37]}, {"op": "clone", "x": 1, "y": 2}, {"op": "process", "x": 2, "data": data[37:120]},
+                                    {"op": "process_mut", "x": 1, "data": data[37:120]}]
+                        hs.append(h4)
+                        R.count((variant, rounds, kl, s, "clone-mid-block"), trivial=False)
                         if s == starts[1]:                 # positioned twice in a row, the second time one block back
                             h3 = dict(h, id=R.next_id())
                             posop = "set_counter" if wide else "seek"
